@@ -162,6 +162,24 @@ def shard_one_element(col, shard):
                                    'result': a[1], 'value_of_r': want_v})
 
 
+# ---- the DOCUMENTED semantics: an independent reference interpreter (props/c01_docref.py, no model involved) ---------------
+def shard_docref(col, shard_i, ngrammars, ninputs, shrink):
+    import props.c01_docref as D
+    stats = [D.run(col, seed=col.rng.randrange(2 ** 30), ngrammars=ngrammars, ninputs=ninputs, shrink=shrink)]
+    if shard_i == 0:
+        stats.append(D.run_corpus(col, seed=col.rng.randrange(2 ** 30), shrink=shrink))
+    for st in stats:
+        col.count('docref.compared', st['cases'])
+        col.count('docref.agree', st['agree'])
+        for sig, ent in st['findings'].items():
+            # a case explained by several documented deviations at once is reported under each of them
+            for part in (D.signature_parts(sig) if not sig.startswith('docref:unexplained') else [sig]):
+                for _ in range(ent['count']):
+                    col.violation(part, 'the implementation deviates from the documented AST semantics (docs quoted in c01_docref.DEVIATIONS)',
+                                  {'oracle': 'documented semantics (reference interpreter)', 'combined_signature': sig, 'example': ent['example'],
+                                   'docs': D.DEVIATIONS.get(part, {}).get('docs')})
+
+
 # ---- skip-to: targets that do / do not skip whitespace themselves, junk and whitespace before the match ----
 def shard_skipto(col, shard, n):
     mr = ModelRun('Engine')
@@ -243,6 +261,9 @@ def main():
             chk.exhaustive = True
         bad = [v for v in chk.violations if v['signature'].startswith('E1')]
         vlib.run_sharded(chk, shard_one_element, 1, procs=1)
+        vlib.run_sharded(chk, shard_docref, 14, extra=((6, 6, False) if chk.quick else (150, 10, True)))
+        chk.obligation('documented AST semantics: implementation vs the reference interpreter (every deviation is a listed finding)', 'oracle',
+                       not any(v['signature'].startswith('docref:') for v in chk.violations))
         chk.obligation("a rule's value is one element of its caller (implementation only)", 'oracle',
                        not any(v['signature'].startswith('oracle:rule-value') for v in chk.violations))
         chk.obligation('E1: tatsu.compile(g).parse(t) vs modelrun eval (random)', 'correspondence',
